@@ -408,3 +408,65 @@ class CallGraph:
 def short(qn: str) -> str:
     parts = qn.split('.')
     return '.'.join(parts[-2:])
+
+
+_SAFE_CODECS = {'latin-1', 'latin1', 'iso-8859-1', 'iso8859-1', 'l1'}
+
+
+def implicit_raise_sites(model: Model, fi: FuncInfo) -> list[tuple[ast.Call, str]]:
+    """Call sites that raise without an explicit `raise`, modelled only where exact:
+    bytes.decode / str.encode / bytes(s, enc) / str(b, enc) without errors= (UnicodeError), struct.unpack (struct.error),
+    int(<str>) (ValueError).  Sites protected by an enclosing handler for the exception are left out."""
+    folder = Folder(model)
+    out: list[tuple[ast.Call, str]] = []
+    pm = parent_map(fi.node)
+    flow = ExcFlow.__new__(ExcFlow)
+    flow.model = model
+    flow._parents_cache = {}
+
+    def protected(node: ast.AST, label: str) -> bool:
+        cur: ast.AST | None = node
+        while cur is not None:
+            p = pm.get(id(cur))
+            if isinstance(p, ast.Try) and any(x is cur for x in p.body):
+                for h in p.handlers:
+                    if ExcFlow.caught_by(flow, label, handler_names(h)):
+                        return True
+            cur = p
+        return False
+
+    for n in walk_no_nested(fi.node):
+        if not isinstance(n, ast.Call):
+            continue
+        label = None
+        if isinstance(n.func, ast.Attribute) and n.func.attr in ('decode', 'encode'):
+            kw = {k.arg for k in n.keywords}
+            if 'errors' in kw or len(n.args) >= 2:
+                continue
+            enc = folder.fold(n.args[0], fi.module, fi.cls) if n.args else 'utf-8'
+            for k in n.keywords:
+                if k.arg == 'encoding':
+                    enc = folder.fold(k.value, fi.module, fi.cls)
+            if isinstance(enc, str) and enc.lower() in _SAFE_CODECS and n.func.attr == 'decode':
+                continue
+            t = model.type_of(fi.module, n.func.value)
+            if n.func.attr == 'decode' and ('bytes' in t or 'memoryview' in t or 'bytearray' in t or 'Buffer' in t or t in ('?', 'Any')):
+                label = 'UnicodeDecodeError'
+            elif n.func.attr == 'encode' and 'str' in t:
+                if isinstance(enc, str) and enc.lower().replace('-', '') in ('utf8',):
+                    continue
+                label = 'UnicodeEncodeError'
+        elif isinstance(n.func, ast.Name) and n.func.id in ('bytes', 'str') and len(n.args) == 2:
+            enc = folder.fold(n.args[1], fi.module, fi.cls)
+            if isinstance(enc, str) and enc.lower().replace('-', '') == 'utf8' and n.func.id == 'bytes':
+                continue
+            if isinstance(enc, str) and enc.lower() in _SAFE_CODECS and n.func.id == 'str':
+                continue
+            label = 'UnicodeEncodeError' if n.func.id == 'bytes' else 'UnicodeDecodeError'
+        elif isinstance(n.func, ast.Name) and n.func.id == 'int' and len(n.args) >= 1:
+            t = model.type_of(fi.module, n.args[0])
+            if t == 'builtins.str':
+                label = 'ValueError'
+        if label and not protected(n, label):
+            out.append((n, label))
+    return out
